@@ -208,6 +208,9 @@ func explodeNode(node *CandidateNode, context Context) error {
 			node.AddChildren(node.Alias.Content)
 			node.Value = node.Alias.Value
 			node.Alias = nil
+			log.Debug("now I'm %v", NodeToString(node))
+			// what was copied in may hold aliases and merge keys of its own (the anchored node need not have been exploded yet)
+			return explodeNode(node, context)
 		}
 		log.Debug("now I'm %v", NodeToString(node))
 		return nil
